@@ -18,6 +18,8 @@ def value_of(kind, raw):
         return [bool(b) for b in raw]
     if kind == 'str':
         return bytes(raw)
+    if kind == 'text':
+        return ''.join(chr(c) for c in raw)          # a text string; the builder transmits its UTF-8 encoding
     return raw
 
 
@@ -35,6 +37,8 @@ def layout(kind, value, byteorder, wordorder):
     """bytes the builder must append for this item; orders are 'big' / 'little'"""
     if kind == 'str':
         return bytes(value)
+    if kind == 'text':
+        return value.encode('utf-8')
     if kind == 'bits':
         out = bytearray((len(value) + 7) // 8)
         for i, b in enumerate(value):
@@ -69,4 +73,6 @@ def same_value(kind, a, b):
         return [bool(x) for x in a] == [bool(x) for x in b]
     if kind == 'str':
         return bytes(a) == bytes(b)
+    if kind == 'text':
+        return bytes(a) == b.encode('utf-8')
     return a == b and type(a) is type(b)
